@@ -269,7 +269,7 @@ theorem filter_snd_norm (p : Bool → Bool) (fs : List Tagged) :
   | nil => rfl
   | cons x r ih =>
     simp only [List.map_cons, List.filter_cons, normTagged]
-    cases p x.1 <;> simp [ih, normTagged]
+    cases p x.1 <;> simp [ih]
 
 /-! ### fragments of the document -/
 
